@@ -148,7 +148,12 @@ PROPERTY = Property(
                      'destination), FETCH BODY[] / BODY.PEEK[], APPEND; plus seeded programs of length 3-4; after every '
                      'command the session listing, and at the end the stored contents of both mailboxes, are compared '
                      'with an independent model',
-                     bounded_refmodel('C10'), decisive=True)],
+                     bounded_refmodel('C10'), decisive=True),
+             Bounded('real server vs. reference model (maildir backend, ++ layout, on a temporary directory)',
+                     'the same command alphabet: every single command and 400 (thorough 6000) seeded pairs and triples; the store '
+                     'starts like the dict demo data (INBOX uids 101..104, set through the UID list\'s next-uid field); listing after '
+                     'every command, final contents of both mailboxes through a second connection; bodies compared modulo CRLF/LF '
+                     '(known finding of C03)', bounded_refmodel('C10', backend='++'), decisive=True)],
     level='other', design_ref='6 C10',
     explanation='deductive: per-operation postconditions equal to the reference model transition (z3, unbounded); '
                 'bounded: composition through BaseSession/ConnectionState against an independent reference model',
